@@ -27,6 +27,14 @@ class Item:
     def m(self, k):
         return self.a + k
 
+    def ts(self):
+        """a PARTIALLY ordered value: the set of tags ({0} and {1} are incomparable, {1} < {1, 2})"""
+        return frozenset(self.tags)
+
+    def fv(self):
+        """a float that is NaN for the item with a == 1 and b == 0 (NaN is incomparable with everything)"""
+        return float("nan") if (self.a, self.b) == (1, 0) else float(self.a + self.b)
+
     def __repr__(self):
         return self.name
 
